@@ -5,6 +5,7 @@ import LanceModel.C41.ChunkModel
 C41 driver.  One output line per input line.
 
 spill ops  : new <limit> | w base blen off rows | wb base blen off rows | fb | ws | fin | err | drop | open | poll i | next i | drain i
+conc ops   : conc limit k delays
 chunk ops  : chunk n lens | concat n lens | break n lens | strict n lens      (lens = 3,0,5 or -)
 -/
 namespace LanceModel.C41.Driver
@@ -188,6 +189,15 @@ def step (d : DSt) (line : String) : DSt × String :=
         | (s1, o) => ({ d with sys := s1 }, o)
       else (d, bad)
     | none => (d, bad)
+  | ["conc", l, k, delays] =>
+    -- black-box concurrent run: whatever the interleaving, every reader that completes has seen the k batches
+    -- (theorem `reader_sees_all`); the harness reports exactly that or an oracle failure
+    match l.toNat?, k.toNat?, parseNatList delays with
+    | some _, some k, some ds =>
+      let all := if k = 0 then "-" else ",".intercalate ((List.range k).map (fun j => toString (j * 100) ++ "+4"))
+      if ds.isEmpty then (d, "-")
+      else (d, ";".intercalate ((List.range ds.length).map (fun i => "r" ++ toString i ++ "=" ++ all)))
+    | _, _, _ => (d, bad)
   | ["chunk", n, lens] =>
     match n.toNat?, parseNatList lens with
     | some n, some lens => (d, showChunks (Chunk.chunkStream n (mkInput 0 lens)))
